@@ -100,8 +100,28 @@ def all_interleavings(sc, limit=400):
     return
 
 
+def pair_scenario(rng):
+    """Two connections between ONE pair of simulators with different delays (direct + time-shifted, in either call order) into a
+    self-stepping consumer, optionally a third simulator: the pair's wait must be the minimum of the two whatever the order."""
+    sims = [{"type": rng.choice(["time-based", "hybrid"]), "group": [], "init_ev": None},
+            {"type": rng.choice(["time-based", "hybrid"]), "group": [], "init_ev": None}]
+    direct = {"src": 0, "seid": 0, "dst": 1, "deid": 0, "sattr": 2, "dattr": 0, "ts": 0, "weak": False, "init": False, "async": False}
+    shifted = {"src": 0, "seid": 0, "dst": 1, "deid": 1, "sattr": 2, "dattr": 0, "ts": rng.choice([1, 1, 2]), "weak": False, "init": True, "async": False}
+    connects = [direct, shifted] if rng.random() < 0.6 else [shifted, direct]
+    if rng.random() < 0.4:
+        sims.append({"type": "time-based", "group": [], "init_ev": None})
+        connects.append({"src": 2, "seid": 0, "dst": rng.randrange(2), "deid": 0, "sattr": 2, "dattr": 0, "ts": 0, "weak": False, "init": False, "async": False})
+    # cache off: with the cache on, initial data of a shifted connection next to a second connection of the same source is the
+    # known finding D12 and a difference would be attributed to it
+    sc = {"sims": sims, "connects": connects, "until": 3, "max_loop": 100, "lazy": False, "cache": False,      # eager: with lazy stepping two simulators hardly ever overlap
+          "beh_seed": rng.randrange(10 ** 9), "sparse_persistent": False, "future_outputs": False}
+    return scorr.normalise(sc)
+
+
 def small_scenario(rng):
-    k = rng.randrange(2)
+    k = rng.randrange(3)
+    if k == 2:
+        return pair_scenario(rng)
     while True:
         sc = scorr.gen_clean_scenario(rng) if k else scorr.gen_scenario(rng)
         if len(sc["sims"]) <= 3 and sc["until"] <= 3 and not scorr.nonuniform_cutoff(sc, False):
